@@ -460,6 +460,7 @@ req_sketch<T, C, A> req_sketch<T, C, A>::deserialize(std::istream& is, const Ser
   const bool is_empty = flags_byte & (1 << flags::IS_EMPTY);
   const bool hra = flags_byte & (1 << flags::IS_HIGH_RANK);
   if (is_empty) return req_sketch(k, hra, comparator, allocator);
+  if (num_levels == 0) throw std::invalid_argument("Possible corruption: non-empty sketch with 0 levels");
 
   optional<T> tmp; // space to deserialize min and max
   optional<T> min_item;
@@ -536,6 +537,7 @@ req_sketch<T, C, A> req_sketch<T, C, A>::deserialize(const void* bytes, size_t s
   const bool is_empty = flags_byte & (1 << flags::IS_EMPTY);
   const bool hra = flags_byte & (1 << flags::IS_HIGH_RANK);
   if (is_empty) return req_sketch(k, hra, comparator, allocator);
+  if (num_levels == 0) throw std::invalid_argument("Possible corruption: non-empty sketch with 0 levels");
 
   optional<T> tmp; // space to deserialize min and max
   optional<T> min_item;
